@@ -20,7 +20,8 @@ def poller_impl(fb):
             continue
         if b.name in poller_model.QUERY_METHODS and common.reaches_call(fb, b, lambda n: n.startswith('chrony_candm::') and 'blocking_query' in n):
             out['get_tracking'] = b
-        elif b.name in poller_model.GRACE_METHODS and common.reaches_call(fb, b, lambda n: n.endswith('Instant::elapsed')):
+        elif b.name in poller_model.GRACE_METHODS and common.reaches_call(
+                fb, b, lambda n: n.endswith(('Instant::elapsed', 'Instant::now', 'Instant::duration_since'))):
             out['is_within_grace_period'] = b
     return out
 
@@ -29,7 +30,7 @@ def check_default_instant(fb, chk, rule):
     """P1 / C09.Q2: Default for the poller puts the last-good-answer instant >= grace in the past"""
     impl = poller_impl(fb)
     self_ty = impl['get_tracking'].impl_self if 'get_tracking' in impl else None
-    dflt = [b for b in fb.bodies(common.DAEMON) if b.name == 'default' and b.impl_self == self_ty]
+    dflt = [b for b in fb.bodies(common.DAEMON) if b.name == 'default' and self_ty and (b.impl_self or '').split('<')[0] == self_ty.split('<')[0]]
     if not dflt:
         chk.missing(rule, 'Default impl of the poller')
         return
@@ -62,7 +63,7 @@ def ctor_constant_of_field(fb, method, v):
     if not names or not (x[0] == 't' and x[1] == 'deref' and x[2][0][0] == 'sym'):
         return None
     names.reverse()
-    dflt = [b for b in fb.bodies(common.DAEMON) if b.name == 'default' and b.impl_self == method.impl_self]
+    dflt = [b for b in fb.bodies(common.DAEMON) if b.name == 'default' and (b.impl_self or '').split('<')[0] == (method.impl_self or '').split('<')[0]]
     if not dflt:
         return None
     eng = common.mk_engine(fb)
